@@ -144,7 +144,7 @@ impl WriteBatch {
 // the statements of KeyValueStore::write before the lock is taken: whatever batch the caller hands in, the batch that
 // goes on holds one entry per key, the caller's last write to it
 //@ extract lsmtk/src/kvs/mod.rs | impl KeyValueStore :: fn write
-//@ region ^ ..< `let (mut wait_guard, memtable, log) = {`
+//@ region ^ ..< `let (mut wait_guard, memtable, log`
 //@ region-sig <<
 fn write_prologue(batch: &mut WriteBatch)
 //@ >>
